@@ -128,9 +128,25 @@ func c15Run(c *Ctx) {
 		K = 8
 	}
 	c.Bound("space", map[string]any{"prefix_items": c15Items, "max_prefix_items": K, "bad_tokens": c15Bad, "renderings": []string{"loose", "tight", "padded"}})
-	items := make([][]Tok, len(c15Items))
-	for i, it := range c15Items {
+	itemTexts := append([][]string{}, c15Items...)
+	// spellings whose validity the properties leave open (deprecated id + suffix): if this tree
+	// accepts one, it is a legitimate prefix and the offsets after it must be right too
+	var optional []string
+	for _, t := range []string{"eCos-2.0-or-later", "eCos-2.0-only", "Nunit-or-later", "wxWindows-or-later"} {
+		if Valid1(t) == 1 {
+			itemTexts = append(itemTexts, []string{t})
+			optional = append(optional, t)
+		}
+	}
+	c.Bound("optional_prefix_terms_accepted_by_this_tree", optional)
+	items := make([][]Tok, len(itemTexts))
+	for i, it := range itemTexts {
 		items[i] = toks(it)
+		for k := range items[i] {
+			if items[i][k].K == TDontCare {
+				items[i][k].K = TLic
+			}
+		}
 	}
 	mit := OpTok("MIT")
 	rp := OpTok(")")
